@@ -394,6 +394,10 @@ func concScenarios(which string) []cScenario {
 				Actors: map[string][]string{"R": {"b 1 RU", "g 1 " + k1, "c 1"}, "W": {"b 2 RC", "s 2 " + k1 + " 301", "r 2", "drain"}},
 				Order: []string{"R", "W"}, Points: map[string]bool{"uget.afterLookup": true},
 				Final: []string{"g 0 " + k1}},
+			{Name: "ru-read-vs-commit", Roots: 1, Setup: []string{"s 0 " + k1 + " 300"},
+				Actors: map[string][]string{"T": {"b 1 RC", "s 1 " + k1 + " 301", "s 1 " + k2 + " 311", "c 1"}, "R": {"b 2 RU", "g 2 " + k1, "g 2 " + k1, "k 2", "g 2 " + k1, "c 2"}},
+				Order: []string{"T", "R"}, Points: map[string]bool{"utx.start": true, "utx.betweenAB": true, "utx.seqB": true, "mut:bset": true},
+				Final: []string{"g 0 " + k1, "k 0"}},
 			{Name: "store-order", Roots: 1, Setup: []string{"s 0 " + k1 + " 300"},
 				Actors: map[string][]string{"A": {"s 0 " + k1 + " 301"}, "T": {"b 1 RC", "s 1 " + k1 + " 302", "g 1 " + k1, "c 1"}, "C": {"g 0 " + k1}},
 				Order: []string{"A", "T", "C"}, Points: map[string]bool{"mut:bset": true},
